@@ -232,6 +232,7 @@ type c19dHeight struct {
 	Stale       []int `json:"stale"`         // validators that commit in view 0 and stay there
 	CommitFirst bool  `json:"commit_first"`  // their Commits reach the others before (true) or after the view change
 	Txs         int   `json:"txs,omitempty"` // transactions pooled everywhere before the height
+	TxFee       int64 `json:"tx_fee,omitempty"`
 }
 
 type c19dStaleInput struct {
@@ -303,8 +304,12 @@ func (n *c19dNet) staleHeight(op c19dHeight, accepts *[]c19dAccept) bool {
 			return false
 		}
 	}
+	fee := op.TxFee
+	if fee == 0 {
+		fee = 1_0000000
+	}
 	for k := 0; k < op.Txs; k++ {
-		tx := n.tx(1_0000000, h+50)
+		tx := n.tx(fee, h+50)
 		for _, nd := range n.nodes {
 			if err := nd.bc.PoolTx(tx); err != nil {
 				panic(err)
@@ -591,9 +596,11 @@ func c19dRunStale(co *caseOut, raw json.RawMessage) error {
 
 type c19dPropInput struct {
 	StateRoot bool   `json:"state_root"`
-	Defect    string `json:"defect"` // none | prev | version | stateroot | count | timestamp | unknown_tx | invalid_tx | dup_tx | size | fee
-	Txs       int    `json:"txs"`    // valid pooled transactions in the proposal besides the defect
-	Backup    int    `json:"backup"` // index of the real service (the primary of height 1 is validator 1)
+	Defect    string `json:"defect"`          // none | prev | version | stateroot | count | timestamp | unknown_tx | invalid_tx | dup_tx | size | fee
+	Txs       int    `json:"txs"`             // valid pooled transactions in the proposal besides the defect
+	Backup    int    `json:"backup"`          // index of the real service (the primary of height 1 is validator 1)
+	Bound     string `json:"bound,omitempty"` // defect "boundary": count | size | fee ...
+	Delta     int    `json:"delta,omitempty"` // ... at the limit + delta (-1, 0, +1)
 }
 
 type c19dPropImpl struct {
@@ -611,15 +618,24 @@ func c19dRunProposal(co *caseOut, raw json.RawMessage) error {
 	if in.Backup < 0 || in.Backup >= N || in.Backup == 1 {
 		in.Backup = 2
 	}
-	const maxTx = 6
+	maxTx := 6
+	if in.Defect == "boundary" {
+		maxTx = 3
+	}
 	var impl c19dPropImpl
 	// facts about the crafted proposal, by construction
 	prevOK, verOK, srOK, cntOK, tsOK, sizeOK, feeOK := true, true, true, true, true, true, true
 	var status []int // per transaction: 0 known and valid, 1 unknown and not obtainable, 2 obtainable but invalid, 3 repetition
 	if p := catch(func() {
+		maxSize := uint32(2000)
+		if in.Defect == "boundary" && in.Bound == "size" {
+			// three transactions: the size the BACKUP computes (witness of the block still empty) is the limit + delta
+			hb := (&block.Block{Header: block.Header{StateRootEnabled: in.StateRoot}}).GetExpectedBlockSizeWithoutTransactions(3)
+			maxSize = uint32(hb + 3*c19dTxSize() - in.Delta)
+		}
 		net := c19dBuild(N, in.StateRoot, []int{in.Backup}, func(c *config.Blockchain) {
-			c.MaxTransactionsPerBlock = maxTx
-			c.MaxBlockSize = 2000
+			c.MaxTransactionsPerBlock = uint16(maxTx)
+			c.MaxBlockSize = maxSize
 			c.MaxBlockSystemFee = 25_000000
 			c.MemPoolSize = 100
 		})
@@ -702,6 +718,20 @@ func c19dRunProposal(co *caseOut, raw json.RawMessage) error {
 			hashes, status = nil, nil
 			addValid(3, 10_000000) // 0.3 GAS > MaxBlockSystemFee = 0.25 GAS, ~1.4 kB
 			feeOK = false
+		case "boundary":
+			hashes, status = nil, nil
+			switch in.Bound {
+			case "count": // limit 3
+				addValid(3+in.Delta, 100000)
+				cntOK = in.Delta <= 0
+			case "fee": // limit 25_000000
+				addValid(2, 10_000000)
+				addValid(1, int64(5_000000+in.Delta))
+				feeOK = in.Delta <= 0
+			default: // size
+				addValid(3, 100000)
+				sizeOK = in.Delta <= 0
+			}
 		}
 		total := 0
 		for _, x := range hashes {
@@ -709,7 +739,10 @@ func c19dRunProposal(co *caseOut, raw json.RawMessage) error {
 				total += tx.Size()
 			}
 		}
-		if in.Defect == "size" && total <= 2000 || in.Defect != "size" && in.Defect != "count" && total+500 >= 2000 {
+		if in.Defect == "boundary" && in.Bound == "size" && total != 3*c19dTxSize() {
+			panic(fmt.Sprintf("transactions of %d bytes, expected 3 x %d", total, c19dTxSize()))
+		}
+		if in.Defect == "size" && total <= 2000 || in.Defect != "size" && in.Defect != "count" && in.Defect != "boundary" && total+500 >= 2000 {
 			panic(fmt.Sprintf("crafted proposal of %d bytes of transactions does not have the intended size class", total))
 		}
 		// the primary's PrepareRequest, hand-encoded (pkg/consensus/prepare_request.go, payload.go)
@@ -762,7 +795,11 @@ func c19dRunProposal(co *caseOut, raw json.RawMessage) error {
 	if !impl.Responded && acceptable {
 		co.violation("proposal", "backup does not answer an acceptable proposal of the primary", in, impl)
 	}
-	co.add("proposal", in.Defect, in.Defect != "none", in, impl,
+	ptag := in.Defect
+	if in.Defect == "boundary" {
+		ptag = fmt.Sprintf("boundary-%s%+d", in.Bound, in.Delta)
+	}
+	co.add("proposal", ptag, in.Defect != "none", in, impl,
 		fmt.Sprintf("CProposal %s %s %s %s %s %s %s %s %s %s %s", coqBool(prevOK), coqBool(verOK), coqBool(srOK), coqBool(cntOK), coqBool(tsOK),
 			coqBool(sizeOK), coqBool(feeOK), coqList(st), coqBool(impl.Responded), coqBool(impl.ChangeView), coqBool(impl.Requested > 0)))
 	return nil
@@ -796,6 +833,8 @@ func runC19d(args []string) error {
 			var err error
 			if x.Kind == "proposal" {
 				err = c19dRunProposal(co, x.Input)
+			} else if x.Kind == "full" {
+				err = c19dRunFull(co, x.Input)
 			} else if x.Kind == "recovery" {
 				err = c19dRunRecovery(co, x.Input)
 			} else {
@@ -863,6 +902,28 @@ func runC19d(args []string) error {
 			in := c19dPropInput{StateRoot: sr, Defect: d, Txs: r.intn(3), Backup: []int{0, 2, 3}[r.intn(3)]}
 			raw, _ := json.Marshal(in)
 			if err := c19dRunProposal(co, raw); err != nil {
+				return err
+			}
+		}
+	}
+	for _, b := range []string{"count", "size", "fee"} {
+		for _, d := range []int{-1, 0, 1} {
+			in := c19dPropInput{StateRoot: r.bool(), Defect: "boundary", Bound: b, Delta: d, Backup: []int{0, 2, 3}[r.intn(3)]}
+			raw, _ := json.Marshal(in)
+			if err := c19dRunProposal(co, raw); err != nil {
+				return err
+			}
+		}
+	}
+	// full blocks: the real primary's proposal when its pool holds more than fits, for each binding limit
+	for _, b := range []string{"count", "fee", "size"} {
+		for _, n := range []int{4, 7} {
+			if n == 7 && cf.n < 20 && b != pick(r, []string{"count", "fee", "size"}) {
+				continue
+			}
+			in := c19dFullInput{N: n, StateRoot: r.bool(), Bound: b, Pool: 4 + r.intn(4)}
+			raw, _ := json.Marshal(in)
+			if err := c19dRunFull(co, raw); err != nil {
 				return err
 			}
 		}
@@ -1327,5 +1388,136 @@ func c19dRunRecovery(co *caseOut, raw json.RawMessage) error {
 	}
 	co.add("recovery", tag, impl.RecMsgs > 0 && len(impl.Restored) > 0, in, map[string]any{"summary": small, "restored": len(impl.Restored)},
 		fmt.Sprintf("CRecovery %d %d %s %d %s %s %s %s", N, W, coqList(items), impl.Rounds, coqBool(impl.Decided), coqBool(impl.SameBlock), coqBool(impl.Accepted), coqBool(impl.AfterOK)))
+	return nil
+}
+
+// ---------------- kind "full" ----------------
+//
+// Liveness with a full block: every pool holds more valid transactions than one block may carry; the REAL primary builds its
+// proposal from its pool (getVerifiedTx -> ApplyPolicyToTxSet), the real backups must answer it; block after block the pool
+// drains in chunks of exactly what the binding limit (count, system fee or size) allows.
+
+type c19dFullInput struct {
+	N         int    `json:"n"`
+	StateRoot bool   `json:"state_root"`
+	Bound     string `json:"bound"` // which limit binds: count (3 per block) | fee | size (2 per block)
+	Pool      int    `json:"pool"`  // transactions in every pool
+}
+
+var c19dTxSizeCache = map[int]int{}
+
+// size of the transactions c19dNet.tx builds for n validators (fixed-width fields: the same for every nonce and fee)
+func c19dTxSizeN(n int) int {
+	if c19dTxSizeCache[n] == 0 {
+		net := c19dBuild(n, false, nil, nil)
+		c19dTxSizeCache[n] = net.tx(100000, 50).Size()
+		if net.tx(10_000000, 51).Size() != c19dTxSizeCache[n] {
+			panic("transaction size depends on the fee")
+		}
+		net.close()
+	}
+	return c19dTxSizeCache[n]
+}
+
+func c19dTxSize() int { return c19dTxSizeN(4) }
+
+func c19dRunFull(co *caseOut, raw json.RawMessage) error {
+	var in c19dFullInput
+	if err := json.Unmarshal(raw, &in); err != nil {
+		return err
+	}
+	if in.N != 7 {
+		in.N = 4
+	}
+	if in.Pool < 1 {
+		in.Pool = 5
+	}
+	const fee = 1_000000
+	cap := 3
+	var counts, reqCounts []int
+	var net *c19dNet
+	if p := catch(func() {
+		tweak := func(c *config.Blockchain) {
+			c.MaxTransactionsPerBlock = 3
+			c.MemPoolSize = 100
+			switch in.Bound {
+			case "fee":
+				c.MaxBlockSystemFee = 2 * fee // two transactions sit exactly at the limit
+			case "size":
+				m := smartcontract.GetDefaultHonestNodeCount(in.N)
+				ks := c19Keys(in.N)
+				var pubs keys.PublicKeys
+				for _, k := range ks {
+					pubs = append(pubs, k.PublicKey())
+				}
+				verif, err := smartcontract.CreateDefaultMultiSigRedeemScript(pubs)
+				if err != nil {
+					panic(err)
+				}
+				tmpl := &block.Block{Header: block.Header{StateRootEnabled: in.StateRoot,
+					Script: transaction.Witness{InvocationScript: make([]byte, 66*m), VerificationScript: verif}}}
+				// the size the PRIMARY computes for two transactions is exactly the limit
+				c.MaxBlockSize = uint32(tmpl.GetExpectedBlockSizeWithoutTransactions(3) + 2*c19dTxSizeN(in.N))
+			}
+		}
+		if in.Bound == "fee" || in.Bound == "size" {
+			cap = 2
+		}
+		var all []int
+		for i := 0; i < in.N; i++ {
+			all = append(all, i)
+		}
+		net = c19dBuild(in.N, in.StateRoot, all, tweak)
+		defer net.close()
+		for k := 0; k < in.Pool; k++ { // in every pool before consensus starts (the first primary proposes at once)
+			tx := net.tx(fee, 60)
+			for _, nd := range net.nodes {
+				if err := nd.bc.PoolTx(tx); err != nil {
+					panic(err)
+				}
+			}
+		}
+		for _, nd := range net.nodes {
+			nd.drv.Start()
+		}
+		var acc []c19dAccept
+		left := in.Pool
+		for hgt := 1; left > 0 && hgt <= in.Pool+1; hgt++ {
+			op := c19dHeight{}
+			h := net.nodes[0].bc.BlockHeight() + 1
+			if !net.staleHeight(op, &acc) {
+				break
+			}
+			b, err := net.nodes[0].bc.GetBlock(net.nodes[0].bc.GetHeaderHash(h))
+			if err != nil {
+				panic(err)
+			}
+			counts = append(counts, len(b.Transactions))
+			left -= len(b.Transactions)
+			if req := net.node(int(h)%in.N).find(0, h, 0); req != nil {
+				e := c19dExt(req)
+				if len(e.Data) > 59 {
+					reqCounts = append(reqCounts, int(e.Data[59]))
+				}
+			}
+			if len(b.Transactions) == 0 {
+				break
+			}
+		}
+	}); p != "" {
+		return fmt.Errorf("harness failure in full-block case %s: %s", string(raw), p)
+	}
+	var want []int
+	for left := in.Pool; left > 0; left -= cap {
+		want = append(want, min(cap, left))
+	}
+	if len(net.viol) == 0 && fmt.Sprint(counts) != fmt.Sprint(want) {
+		net.violate("pools hold %d valid transactions and %s allows %d per block: blocks carry %v transactions, expected %v", in.Pool, in.Bound, cap, counts, want)
+	}
+	for _, v := range net.viol {
+		co.violation("full", "full block ("+in.Bound+" limit binding): "+v, in, map[string]any{"blocks": counts, "proposed": reqCounts})
+	}
+	co.add("full", fmt.Sprintf("n%d/%s", in.N, in.Bound), len(counts) > 1, in, map[string]any{"blocks": counts, "proposed": reqCounts},
+		fmt.Sprintf("CFull %d %d %s %s", in.Pool, cap, c20Ints(counts), c20Ints(reqCounts)))
 	return nil
 }
